@@ -13,7 +13,7 @@ class MessageMetaAttributes(object):
         self.notify = notify
         self.timestamp = int(timestamp) if timestamp else None
         self.participant = participant
-        self.offline = offline in ("1", True)
+        self.offline = None if offline is None else offline in ("1", True)
         self.retry = int(retry) if retry else None
 
     @staticmethod
